@@ -207,7 +207,7 @@ int main(void)
 
 #if MODE == 3
 #if LEN > 16
-	if (cc0 > 0xFFFFFFFFu - NBLK + 1 && cc0 != 0xFFFFFFFFu) { WITNESS_POINT("32-bit counter wraps inside the message"); }
+	if (cc0 > 0xFFFFFFFFu - (NBLK - 1)) { WITNESS_POINT("32-bit counter wraps inside the message"); }
 #endif
 	if (cc0 == 0xFFFFFFFFu) { WITNESS_POINT("start counter 0xFFFFFFFF"); }
 #endif
